@@ -159,7 +159,14 @@ pub struct Case<O> {
 
 fn gen_ops_common(rng: &mut Rng, sched: &mut Sched, bts: &[u64], n_datasets: &[String], w: &[u32; 6], bogus_p: f64) -> (u8, Option<u64>, usize, String) {
     let client = sched.next(rng);
-    let dataset = if rng.chance(0.08) { "nope".to_string() } else { rng.pick(n_datasets).clone() };
+    let dataset = if rng.chance(0.08) {
+        let base = rng.pick(n_datasets).clone();
+        let c = [ "nope".to_string(), base.to_uppercase(), base.to_lowercase(), format!("{base}x"), "Random".to_string() ];
+        let p = rng.pick(&c).clone();
+        if n_datasets.contains(&p) { "nope".to_string() } else { p }
+    } else {
+        rng.pick(n_datasets).clone()
+    };
     let bt = if bts.is_empty() {
         None
     } else if rng.chance(bogus_p) {
@@ -433,7 +440,7 @@ impl Engine for E2U {
         let single = w.one_in(3);
         let nds = if single { 1 } else { w.range(1, 3) as usize };
         let mut st = WorldStats::default();
-        let names = ["fake", "d2", "RANDOM"];
+        let names = ["fake", "Fake", "RANDOM"];
         let datasets: Vec<DatasetSpec> = (0..nds).map(|i| gen_dataset(&mut w, names[i], &cfg, &mut st)).collect();
         let mut c = root.fork("cfg");
         let max_ops = if crate::common::long_run(seed, tier) { if tier == Tier::Thorough { c.range(300, 1200) as usize } else { c.range(200, 500) as usize } } else if tier == Tier::Thorough { c.range(20, 300) as usize } else { c.range(10, 60) as usize };
@@ -755,7 +762,7 @@ impl Engine for E2J {
         let single = w.one_in(3);
         let nds = if single { 1 } else { w.range(1, 3) as usize };
         let mut st = WorldStats::default();
-        let names = ["fake", "d2", "RANDOM"];
+        let names = ["fake", "Fake", "RANDOM"];
         let datasets: Vec<DatasetSpec> = (0..nds).map(|i| gen_dataset(&mut w, names[i], &cfg, &mut st)).collect();
         let mut c = root.fork("cfg");
         let max_ops = if crate::common::long_run(seed, tier) { if tier == Tier::Thorough { c.range(300, 1200) as usize } else { c.range(200, 500) as usize } } else if tier == Tier::Thorough { c.range(20, 300) as usize } else { c.range(10, 60) as usize };
